@@ -20,25 +20,36 @@ def fragRows (s : Store) (start : Nat) (col : Option Nat) (limit : Option Nat) :
   | none => rs
   | some l => rs.take l
 
-/-- Days a Rows call on a time field ranges over: from ≤ d < to, restricted to days that have a view. -/
-def inRange (a : RowsArgs) (d : Nat) : Bool :=
-  (match a.fromDay with | none => true | some f => f ≤ d) && (match a.toDay with | none => true | some t => d < t)
+/-- Days a Rows call on a time field ranges over: from ≤ d < to. -/
+def inRange (fromDay toDay : Option Nat) (d : Nat) : Bool :=
+  (match fromDay with | none => true | some f => f ≤ d) && (match toDay with | none => true | some t => d < t)
+
+/-- Every row with at least one bit in the column / time range over the given shards, ascending,
+duplicate-free. -/
+def allRows (db : DB) (field : Nat) (column fromDay toDay : Option Nat) (shards : List Nat) : List Nat :=
+  let timeRange := db.timeFields.contains field && (fromDay.isSome || toDay.isSome)
+  let frs := db.frags.filter (fun p =>
+    p.1.field == field &&
+    (match column with
+      | none => shards.contains p.1.shard
+      | some c => p.1.shard == c / shardWidth) &&       -- a column belongs to exactly one shard
+    (if timeRange then (match p.1.view with | some d => inRange fromDay toDay d | none => false) else p.1.view.isNone))
+  sortDedup (frs.flatMap (fun p => (p.2.filter (fun b =>
+    match column with
+    | none => true
+    | some c => b.2 == c % shardWidth)).map (·.1)))
+
+/-- What `previous` and `limit` select from an ascending list. -/
+def page (all : List Nat) (previous limit : Option Nat) : List Nat :=
+  let after := all.filter (fun r => match previous with | none => true | some p => r > p)
+  match limit with
+  | none => after
+  | some l => after.take l
 
 /-- Rows(): distinct rows with at least one bit in the column / time range over the given shards,
 after `previous`, ascending, the first `limit`. -/
 def rows (db : DB) (a : RowsArgs) (shards : List Nat) : List Nat :=
-  let timeRange := db.timeFields.contains a.field && (a.fromDay.isSome || a.toDay.isSome)
-  let frs := db.frags.filter (fun p =>
-    p.1.field == a.field && shards.contains p.1.shard &&
-    (if timeRange then (match p.1.view with | some d => inRange a d | none => false) else p.1.view.isNone))
-  let all := sortDedup (frs.flatMap (fun p => (p.2.filter (fun b =>
-    match a.column with
-    | none => true
-    | some c => p.1.shard == c / shardWidth && b.2 == c % shardWidth)).map (·.1)))
-  let after := all.filter (fun r => match a.previous with | none => true | some p => r > p)
-  match a.limit with
-  | none => after
-  | some l => after.take l
+  page (allRows db a.field a.column a.fromDay a.toDay shards) a.previous a.limit
 
 /-- Total number of columns of `row` (within the filter) over the shards. -/
 def totalCount (db : DB) (field row : Nat) (filter : Option (Nat → List Nat)) (shards : List Nat) : Nat :=
